@@ -75,8 +75,8 @@ INDEX_NODE = {str(i): n for n, i in NODE_INDEX.items()}
 # ------------------------------------------------------------------------------
 # launcher configurations: (factory name, spec configuration, lm_info, extras)
 #
-def S(m, fl='plain', mode='std', vnew=False):
-    return {'m': m, 'fl': fl, 'mode': mode, 'vnew': vnew}
+def S(m, fl='plain', mode='std', vnew=False, opt='absent'):
+    return {'m': m, 'fl': fl, 'mode': mode, 'vnew': vnew, 'opt': opt}
 
 
 def _mpirun(command='/usr/bin/mpirun', mpt=False, rsh=False, ccmrun='', dplace='',
@@ -123,6 +123,8 @@ CONFIGS = {
     'mpiexec_std'    : ('MPIEXEC',       S('MPIEXEC'), _mpiexec(), {}),
     'mpiexec_os'     : ('MPIEXEC',       S('MPIEXEC'), _mpiexec(can_os=True),
                         {'details': {'oversubscribe': True}}),
+    'mpiexec_os_off' : ('MPIEXEC',       S('MPIEXEC'), _mpiexec(can_os=True),
+                        {'details': {'oversubscribe': False}}),
     'mpiexec_mpt'    : ('MPIEXEC_MPT',   S('MPIEXEC', 'mpt'),
                         _mpiexec(command='/usr/bin/mpiexec_mpt', mpt=True, omplace='omplace'), {}),
     'mpiexec_mpt_rf' : ('MPIEXEC_MPT',   S('MPIEXEC', 'mpt', 'rf'),
@@ -131,6 +133,9 @@ CONFIGS = {
                         {'command': '/usr/bin/srun', 'version': '22.05.8', 'vmajor': 22}, {}),
     'srun_old'       : ('SRUN',          S('SRUN', vnew=False),
                         {'command': '/usr/bin/srun', 'version': '18.08.1', 'vmajor': 18}, {}),
+    'srun_nogpu'     : ('SRUN',          S('SRUN', vnew=True),
+                        {'command': '/usr/bin/srun', 'version': '21.08.1', 'vmajor': 21},
+                        {'details': {'exact': False}, 'requested_gpus': 0}),
     'srun_exact'     : ('SRUN',          S('SRUN', vnew=True),
                         {'command': '/usr/bin/srun', 'version': '23.02.1', 'vmajor': 23},
                         {'details': {'exact': True}, 'threads_per_core': 2}),
@@ -140,8 +145,6 @@ CONFIGS = {
     'aprun'          : ('APRUN',         S('APRUN'),  {'command': '/usr/bin/aprun'}, {}),
     'ccmrun'         : ('CCMRUN',        S('CCMRUN'), {'command': '/usr/bin/ccmrun'}, {}),
     'ibrun'          : ('IBRUN',         S('IBRUN'),  {'command': '/usr/bin/ibrun'}, {}),
-    'ibrun_tpn'      : ('IBRUN',         S('IBRUN'),  {'command': '/usr/bin/ibrun'},
-                        {'lm_cfg': {'options': {'tasks_per_node': 4}}}),
     'jsrun'          : ('JSRUN',         S('JSRUN', mode='rs'),
                         {'command': '/usr/bin/jsrun', 'erf': False}, {}),
     'jsrun_smt4'     : ('JSRUN',         S('JSRUN', mode='rs'),
@@ -155,8 +158,40 @@ CONFIGS = {
                                      'version_info': {'name': 'PRTE', 'version': '2.0'}}}, {}),
 }
 
+# The launch method's section of the resource config (lm_cfg) is a dimension of
+# its own: its `options` are absent, present but empty, or present with the
+# key the classes read pinned (IBRUN: tasks_per_node).  A configuration name
+# 'base+empty' / 'base+pinned' denotes the base configuration with that section.
+OPTS        = ['absent', 'empty', 'pinned']
+OPT_SECTION = {'empty': {}, 'pinned': {'tasks_per_node': 4}}
+BASES       = sorted(CONFIGS)
+
+
+class _Configs(dict):
+    def __missing__(self, key):
+        base, _, opt = key.partition('+')
+        if base not in self.keys() or opt not in OPT_SECTION:
+            raise KeyError(key)
+        name, spec, info, extras = self[base]
+        extras = copy.deepcopy(extras)
+        extras.setdefault('lm_cfg', {})['options'] = copy.deepcopy(OPT_SECTION[opt])
+        return (name, dict(spec, opt=opt), info, extras)
+
+
+CONFIGS = _Configs(CONFIGS)
+
+
+def variant(base, opt):
+    return base if opt == 'absent' else '%s+%s' % (base, opt)
+
+
+def base_of(cfgname):
+    return cfgname.partition('+')[0]
+
+
 # configurations whose command form switches at the host-list limit
-LIMIT_SENSITIVE = {k for k, v in CONFIGS.items() if v[1]['m'] in ('MPIRUN', 'SRUN')}
+def limit_sensitive(cfgname):
+    return CONFIGS[cfgname][1]['m'] in ('MPIRUN', 'SRUN')
 
 
 def spec_of(cfgname):
@@ -170,7 +205,7 @@ def hostname_of(cfgname):
 
 def cfgnames_for(spec):
     '''rig configurations realising a configuration of the design model'''
-    return [k for k, v in CONFIGS.items() if v[1] == spec]
+    return [variant(b, o) for b in BASES for o in OPTS if spec_of(variant(b, o)) == spec]
 
 
 # ------------------------------------------------------------------------------
@@ -215,7 +250,7 @@ def make_rm_info(extras=None):
         'cores_per_node'  : cpn,
         'gpus_per_node'   : gpn,
         'threads_per_core': extras.get('threads_per_core', 1),
-        'requested_gpus'  : 8,
+        'requested_gpus'  : extras.get('requested_gpus', 8),
         'requested_cores' : cpn * len(UNIVERSE),
         'requested_nodes' : len(UNIVERSE),
         'details'         : dict(extras.get('details', {})),
@@ -243,16 +278,21 @@ def make_launcher(cfgname, rm_info=None):
     lm_info.setdefault('env', {})
     lm_info.setdefault('env_sh', 'env/lm_%s.sh' % name.lower())
     FakeRegistry.store = {'lm.%s' % name.lower(): lm_info}
-    lm_cfg = {'pid': 'pilot.0000', 'reg_addr': 'tcp://fake:1',
-              'resource': extras.get('resource', 'local.localhost')}
-    lm_cfg.update(extras.get('lm_cfg', {}))
+    # as ResourceManager._prepare_launch_methods: Config of the launch method's
+    # section of the resource config, plus pid / reg_addr / resource
+    lm_cfg = ru.Config(from_dict=copy.deepcopy(dict({'pre_exec_cached': []},
+                                                    **extras.get('lm_cfg', {}))))
+    lm_cfg.pid      = 'pilot.0000'
+    lm_cfg.reg_addr = 'tcp://fake:1'
+    lm_cfg.resource = extras.get('resource', 'local.localhost')
     if rm_info is None:
-        rm_info = shared_rm_info({k: v for k, v in extras.items() if k != 'hostname'})
+        rm_info = shared_rm_info({k: v for k, v in extras.items()
+                                  if k in ('threads_per_core', 'details', 'requested_gpus')})
     ps = _patches(extras.get('hostname', LOCAL))
     for p in ps:
         p.start()
     try:
-        lm = LaunchMethod.create(name, ru.Config(from_dict=lm_cfg), rm_info,
+        lm = LaunchMethod.create(name, lm_cfg, rm_info,
                                  rpshim.NullLog(), rpshim.NullLog())
     finally:
         for p in ps:
@@ -688,10 +728,51 @@ def interpret(spec, lm_info, cmd, exec_path, read, index_node=None):
 FILE_SUFFIXES = ('hf', 'hosts', 'nodes', 'rf', 'rs')
 
 
+def _plain(x):
+    '''ru.TypedDict / ru.Config keep their data outside the dict they derive
+       from: convert to plain containers'''
+    if hasattr(x, 'as_dict'):
+        x = x.as_dict()
+    if isinstance(x, dict):
+        return {str(k): _plain(v) for k, v in x.items()}
+    if isinstance(x, (list, tuple)):
+        return [_plain(v) for v in x]
+    return x
+
+
+def config_digest(lm, nodes=False):
+    '''the config objects a launcher was given: its section of the resource
+       config (lm_cfg) and the resource manager's info (rm_info; its long node
+       list only on request)'''
+    rm = lm._rm_info
+    blob = json.dumps([_plain(lm._lm_cfg),
+                       {k: _plain(rm[k]) for k in list(rm.keys()) if nodes or k != 'node_list'}],
+                      sort_keys=True, default=repr)
+    return hashlib.sha1(blob.encode()).hexdigest()
+
+
+def digest_selftest():
+    '''the digest sees a change of a nested option, of rm_info.details and of
+       a node entry (and nothing else differs between two instances)'''
+    a, b = make_launcher('ibrun+empty'), make_launcher('ibrun+empty')
+    b._rm_info = make_rm_info()
+    ok = config_digest(a, True) == config_digest(b, True) and len(list(a._rm_info.keys())) > 5
+    d0 = config_digest(b)
+    b._lm_cfg.get('options', {}).setdefault('tasks_per_node', 3)
+    ok = ok and config_digest(b) != d0
+    d1 = config_digest(b)
+    b._rm_info.details['x'] = 1
+    ok = ok and config_digest(b) != d1
+    d2 = config_digest(b, True)
+    b._rm_info.node_list[-1]['cores'][0] = 1
+    ok = ok and config_digest(b, True) != d2 and config_digest(a) == d0
+    return ok
+
+
 class Instance(object):
     '''one REAL launcher object with its own sandbox'''
 
-    def __init__(self, cfgname, sbox=None):
+    def __init__(self, cfgname, sbox=None, track_nodes=True):
         self.cfgname = cfgname
         self.spec    = spec_of(cfgname)
         self.info    = CONFIGS[cfgname][2]
@@ -700,6 +781,12 @@ class Instance(object):
         self.lm      = make_launcher(cfgname)
         self.old     = self.spec['m'] == 'JSRUN'
         self.ngen    = 0
+        self.last_digest = None
+        self.track   = track_nodes     # fresh comparison instances are not judged
+        self.nodes0  = config_digest(self.lm, nodes=True) if track_nodes else None
+
+    def nodes_untouched(self):
+        return self.nodes0 is None or config_digest(self.lm, nodes=True) == self.nodes0
 
     def close(self):
         try:
@@ -740,19 +827,29 @@ class Instance(object):
         uid  = task['uid']
         exe  = '%s/%s.exec.sh' % (self.sbox, uid)
         res  = {'can': False, 'out': 'skip', 'raw': '', 'files': [], 'c': dict(EMPTY_C),
-                'sig': 'refused', 'why': ''}
+                'sig': 'refused', 'why': '', 'cfgsame': True}
+        # nothing touches the launcher between two generations: the digest
+        # after one call is the digest before the next
+        digest = config_digest if self.track else (lambda lm: 'untracked')
+        before = self.last_digest or digest(self.lm)
         can, why = self.lm.can_launch(task)
         res['can'] = bool(can)
         res['why'] = str(why)
         if not can:
+            self.last_digest = digest(self.lm)
+            res['cfgsame'] = self.last_digest == before
             return res
         self.ngen += 1
         try:
             cmds = self.lm.get_launch_cmds(task, exe)
         except Exception as e:
             res.update({'out': 'raise', 'sig': 'raise:%s' % type(e).__name__,
-                        'why': '%s: %s' % (type(e).__name__, e)})
+                        'why': '%s: %s' % (type(e).__name__, e),
+                        'cfgsame': digest(self.lm) == before})
+            self.last_digest = None
             return res
+        self.last_digest = digest(self.lm)
+        res['cfgsame'] = self.last_digest == before
         cmds = ru.as_list(cmds)
         if len(cmds) != 1:
             raise InterpretError('%d commands returned' % len(cmds))
@@ -787,7 +884,7 @@ class FreshCache(object):
         if key not in self.cache:
             for f in os.listdir(self.sbox):
                 os.unlink(os.path.join(self.sbox, f))
-            inst = Instance(cfgname, sbox=self.sbox)
+            inst = Instance(cfgname, sbox=self.sbox, track_nodes=False)
             self.cache[key] = inst.gen(pl, openmp=openmp)
         return self.cache[key]
 
@@ -796,7 +893,7 @@ def gen_event(inst, fresh, pl, openmp=False):
     r = inst.gen(pl, openmp=openmp)
     f = fresh.get(inst.cfgname, pl, openmp=openmp)
     return {'ev': 'Gen', 'task': task_json(pl), 'can': r['can'], 'out': r['out'],
-            'c': r['c'], 'sig': r['sig'], 'fresh': f['sig']}, r, f
+            'c': r['c'], 'sig': r['sig'], 'fresh': f['sig'], 'cfgsame': r['cfgsame']}, r, f
 
 
 def run_trace(cfgname, pls, fresh, openmp=False):
@@ -809,6 +906,8 @@ def run_trace(cfgname, pls, fresh, openmp=False):
             events.append(ev)
             details.append({'raw': r['raw'], 'files': r['files'], 'why': r['why'],
                             'fresh_raw': f['raw'], 'fresh_files': f['files']})
+        if events and not inst.nodes_untouched():
+            events[-1]['cfgsame'] = False          # rm_info.node_list changed on the way
     finally:
         inst.close()
     trace = {'cfg': spec_of(cfgname), 'cfgname': cfgname,
@@ -880,6 +979,7 @@ class LauncherSet(object):
         rm    = self.rm
         order = list(rm._launch_order)
         cans  = []
+        before = [config_digest(rm._launchers[n]) for n in order]
         for name in order:
             lm   = rm._launchers[name]
             task = build_task(pl, self.sbox, old_slots=name.startswith('JSRUN'))
@@ -892,8 +992,10 @@ class LauncherSet(object):
             sel = order.index(lname) + 1
         else:
             sel = len(order) + 1                 # not one of the configured methods
+        same = before == [config_digest(rm._launchers[n]) for n in order]
         return {'ev': 'Find', 'order': order, 'cfgs': [self.specs[n] for n in order],
-                'cans': cans, 'sel': sel, 'kept': self.kept, 'task': task_json(pl)}
+                'cans': cans, 'sel': sel, 'kept': self.kept, 'cfgsame': same,
+                'task': task_json(pl)}
 
 
 def find_trace(order, broken, pls, hostname=LOCAL):
@@ -983,7 +1085,7 @@ def recorded_traces():
             idx = {str(x['node_index']): x['node_name'] for x in slots}
             c   = interpret(spec, info, cmd, '', read, index_node=idx)
             ev = {'ev': 'Gen', 'task': task_json(pl), 'can': True, 'out': 'cmd', 'c': c,
-                  'sig': 'recorded', 'fresh': 'recorded'}
+                  'sig': 'recorded', 'fresh': 'recorded', 'cfgsame': True}
             traces.append({'cfg': spec, 'cfgname': 'recorded:' + key,
                            'local': [s['node_name'] for s in slots] + ['localhost'],
                            'events': [ev]})
